@@ -28,13 +28,15 @@ N == Len(TraceLog)
 
 VARIABLES c,      \* history being consumed
           j,      \* next event of it
-          memo,   \* family -> kind -> id of the reference result
+          memo,   \* <<family, kind>> -> id of the reference result, for the argument ids that are NOT in fresh.json (entered at
+                  \* first sight); the seed of the memo, fresh.json, is the constant FreshIds (kept out of the state: TLC
+                  \* fingerprints every state variable on every step)
           dev,    \* the current history already deviated (only its FIRST deviating call is reported: with all
                   \* histories enumerated every defect also shows up in a history where it comes first)
           ret     \* returned values of the current history: [x: exception class, r: id of the producing result, ok: not yet seen altered]
 tvars == <<c, j, memo, dev, ret, vars>>
 
-TraceInit == /\ c = 1 /\ j = 1 /\ memo = FreshIds /\ ret = <<>> /\ dev = FALSE
+TraceInit == /\ c = 1 /\ j = 1 /\ memo = [x \in {} |-> 0] /\ ret = <<>> /\ dev = FALSE
              /\ Init                                   \* (the design-model variables of Reuse stay idle)
              /\ TLCSet(1, <<>>) /\ TLCSet(2, 0) /\ TLCSet(3, 0) /\ TLCSet(4, 0)
 
@@ -42,12 +44,15 @@ Fam == TraceLog[c].f
 Ev  == TraceLog[c].ev[j]
 V(id) == Vals[Fam][id]
 
+\* the reference id of argument id k in this family: from fresh.json, else entered earlier in this trace, else 0 (unseen)
+Seeded(k) == Fam \in DOMAIN FreshIds /\ k \in DOMAIN FreshIds[Fam]
+RefId(k) == IF Seeded(k) THEN FreshIds[Fam][k] ELSE IF <<Fam, k>> \in DOMAIN memo THEN memo[<<Fam, k>>] ELSE 0
 \* memo of this family restricted to the argument id of the event, as values
-MemoAt(k) == [a \in ({k} \cap DOMAIN memo[Fam]) |-> V(memo[Fam][a])]
+MemoAt(k) == [a \in (IF RefId(k) = 0 THEN {} ELSE {k}) |-> V(RefId(a))]
 
 \* (equal ids denote the same entry of the value table, hence equal values: the judgement is only spelled out on the
 \* values when the ids differ)
-CallOK     == (Ev.k \in DOMAIN memo[Fam] /\ memo[Fam][Ev.k] = Ev.r) \/ CallConforms(MemoAt(Ev.k), Ev.k, V(Ev.r))
+CallOK     == RefId(Ev.k) = Ev.r \/ CallConforms(MemoAt(Ev.k), Ev.k, V(Ev.r))
 \* Scribble: what was just handed out (h) is unchanged after the caller overwrote its input buffer (s)
 ScribbleOK == Ev.h = Ev.s \/ ScribbleConforms(V(Ev.h), V(Ev.s))
 \* returned value i as seen after this call
@@ -69,8 +74,8 @@ TCall == /\ c <= N /\ j <= Len(TraceLog[c].ev)
             /\ (IF b = <<>> \/ Len(TLCGet(1)) >= MaxBad THEN TRUE ELSE TLCSet(1, TLCGet(1) \o b))
             /\ (IF b = <<>> THEN TRUE ELSE TLCSet(3, TLCGet(3) + Len(b)))
          /\ TLCSet(4, TLCGet(4) + 1)
-         /\ memo' = IF Ev.k \in DOMAIN memo[Fam] THEN memo
-                    ELSE [memo EXCEPT ![Fam] = (Ev.k :> Ev.r) @@ memo[Fam]]      \* first sight of an argument id: entered
+         /\ memo' = IF RefId(Ev.k) # 0 THEN memo                                 \* first sight of an argument id: entered
+                    ELSE [x \in DOMAIN memo \cup {<<Fam, Ev.k>>} |-> IF x = <<Fam, Ev.k>> THEN Ev.r ELSE memo[x]]
          /\ ret' = Append([i \in 1..Len(ret) |-> [ret[i] EXCEPT !.ok = ret[i].ok /\ RecheckOK(i)]],
                           [x |-> Ev.x, r |-> Ev.r, h |-> Ev.h, ok |-> TRUE])
          /\ j' = j + 1 /\ UNCHANGED <<c, vars>>
